@@ -38,6 +38,7 @@ type relayFaults struct {
 	asyncSend time.Duration // > 0: Send only queues the message locally and returns; it is on its way after this long, unless the stream's context is cancelled first (gRPC client streams)
 	capMsgs   int           // mailbox capacity in messages: a Send blocks while the box holds that many (0 = unbounded)
 	delErrPm  int           // DelCipherBox fails (at any time, not only before `until`); the box may or may not be gone
+	garbagePm int           // the first message delivered by the first receive stream ever opened on a stream id is garbage: the GBN handshake on it fails, Dial/Accept report an error, the application retries
 }
 
 type relayMsg struct {
@@ -384,6 +385,8 @@ type recvStream struct {
 	id   string
 	dead error
 	n    int
+	// garbageFirst: the first Recv returns an undecodable message
+	garbageFirst bool
 }
 
 func (r *relay) RecvStream(ctx context.Context, in *hashmailrpc.CipherBoxDesc, _ ...grpc.CallOption) (hashmailrpc.HashMail_RecvStreamClient, error) {
@@ -398,7 +401,14 @@ func (r *relay) RecvStream(ctx context.Context, in *hashmailrpc.CipherBoxDesc, _
 		r.rc.Fault("relay-recvstream-error")
 		return nil, status.Error(codes.Unavailable, "simulated relay failure")
 	}
-	return &recvStream{r: r, ctx: ctx, id: id}, nil
+	rs := &recvStream{r: r, ctx: ctx, id: id}
+	// (only the very first time a stream id is opened: a bounded number of
+	// faults per session, so that "after the faults" exists)
+	if r.f.garbagePm > 0 && r.sids[id] == 1 && simrt.Pm(r.f.garbagePm, "relay.garbage-first") {
+		r.rc.Fault("relay-garbage-on-fresh-stream")
+		rs.garbageFirst = true
+	}
+	return rs, nil
 }
 
 func (s *recvStream) Context() context.Context { return s.ctx }
@@ -417,6 +427,10 @@ func (s *recvStream) fail(err error) error {
 
 func (s *recvStream) Recv() (*hashmailrpc.CipherBox, error) {
 	r := s.r
+	if s.garbageFirst {
+		s.garbageFirst = false
+		return &hashmailrpc.CipherBox{Msg: []byte{0xEE}}, nil
+	}
 	for {
 		if s.ctx.Err() != nil {
 			r.mu.Lock()
